@@ -224,11 +224,16 @@ func (e *encoderCborBytes) kArrayWMbs(rv reflect.Value, ti *typeInfo, isSlice bo
 		fn = e.kSeqFn(ti.elem)
 	}
 
+	elemNotAddr := !isSlice && e.h.NoAddressableReadonly && !rv.CanAddr()
+
 	j := 0
 	e.c = containerMapKey
 	e.e.WriteMapElemKey(true)
 	for {
 		rvv := rvArrayIndex(rv, j, ti, isSlice)
+		if elemNotAddr {
+			rvv = rvNotAddressable(rvv)
+		}
 		if builtin {
 			e.encodeIB(rv2i(baseRVRV(rvv)))
 		} else {
@@ -269,11 +274,16 @@ func (e *encoderCborBytes) kArrayW(rv reflect.Value, ti *typeInfo, isSlice bool)
 		fn = e.kSeqFn(ti.elem)
 	}
 
+	elemNotAddr := !isSlice && e.h.NoAddressableReadonly && !rv.CanAddr()
+
 	j := 0
 	e.c = containerArrayElem
 	e.e.WriteArrayElem(true)
 	for {
 		rvv := rvArrayIndex(rv, j, ti, isSlice)
+		if elemNotAddr {
+			rvv = rvNotAddressable(rvv)
+		}
 		if builtin {
 			e.encodeIB(rv2i(baseRVRV(rvv)))
 		} else {
@@ -650,6 +660,10 @@ func (e *encoderCborBytes) kMap(f *encFnInfo, rv reflect.Value) {
 	}
 
 	var rvv = mapAddrLoopvarRV(f.ti.elem, vtypeKind)
+	if e.h.NoAddressableReadonly {
+
+		rvv = rvNotAddressable(rvv)
+	}
 
 	rtkey := f.ti.key
 	var keyTypeIsString = stringTypId == rt2id(rtkey)
@@ -672,6 +686,9 @@ func (e *encoderCborBytes) kMap(f *encFnInfo, rv reflect.Value) {
 	}
 
 	var rvk = mapAddrLoopvarRV(f.ti.key, ktypeKind)
+	if e.h.NoAddressableReadonly {
+		rvk = rvNotAddressable(rvk)
+	}
 
 	var it mapIter
 	mapRange(&it, rv, rvk, rvv, true)
@@ -4300,11 +4317,16 @@ func (e *encoderCborIO) kArrayWMbs(rv reflect.Value, ti *typeInfo, isSlice bool)
 		fn = e.kSeqFn(ti.elem)
 	}
 
+	elemNotAddr := !isSlice && e.h.NoAddressableReadonly && !rv.CanAddr()
+
 	j := 0
 	e.c = containerMapKey
 	e.e.WriteMapElemKey(true)
 	for {
 		rvv := rvArrayIndex(rv, j, ti, isSlice)
+		if elemNotAddr {
+			rvv = rvNotAddressable(rvv)
+		}
 		if builtin {
 			e.encodeIB(rv2i(baseRVRV(rvv)))
 		} else {
@@ -4345,11 +4367,16 @@ func (e *encoderCborIO) kArrayW(rv reflect.Value, ti *typeInfo, isSlice bool) {
 		fn = e.kSeqFn(ti.elem)
 	}
 
+	elemNotAddr := !isSlice && e.h.NoAddressableReadonly && !rv.CanAddr()
+
 	j := 0
 	e.c = containerArrayElem
 	e.e.WriteArrayElem(true)
 	for {
 		rvv := rvArrayIndex(rv, j, ti, isSlice)
+		if elemNotAddr {
+			rvv = rvNotAddressable(rvv)
+		}
 		if builtin {
 			e.encodeIB(rv2i(baseRVRV(rvv)))
 		} else {
@@ -4726,6 +4753,10 @@ func (e *encoderCborIO) kMap(f *encFnInfo, rv reflect.Value) {
 	}
 
 	var rvv = mapAddrLoopvarRV(f.ti.elem, vtypeKind)
+	if e.h.NoAddressableReadonly {
+
+		rvv = rvNotAddressable(rvv)
+	}
 
 	rtkey := f.ti.key
 	var keyTypeIsString = stringTypId == rt2id(rtkey)
@@ -4748,6 +4779,9 @@ func (e *encoderCborIO) kMap(f *encFnInfo, rv reflect.Value) {
 	}
 
 	var rvk = mapAddrLoopvarRV(f.ti.key, ktypeKind)
+	if e.h.NoAddressableReadonly {
+		rvk = rvNotAddressable(rvk)
+	}
 
 	var it mapIter
 	mapRange(&it, rv, rvk, rvv, true)
